@@ -4,6 +4,7 @@ k-decimal number `n / 10^k` with `n < 2^52` is printed by `encFix k` as exactly 
 -/
 import PartituraModel.Model.MatchCodec
 import PartituraModel.Proofs.Round
+import PartituraModel.Proofs.C07Codec
 import Mathlib.Tactic.Linarith
 import Mathlib.Tactic.FieldSimp
 import Mathlib.Tactic.Positivity
@@ -265,5 +266,91 @@ theorem encFix_fixed (k n : ℕ) (neg : Bool) (hb : n < 2 ^ 52) (hz : neg = true
       simp only [toBinary64_neg _ hneg, neg_neg]
       have hl : -tbPos ((n : ℚ) / (pow10 k : ℚ)) < 0 := by linarith
       simp only [hl, if_true, neg_neg, hr, decide_true, Int.toNat_natCast]
+
+-- ---------------------------------------------------------------- repr (the shortest decimal, carried exactly)
+
+theorem decimalsOf_spec (a : ℚ) : ∀ (fuel d d' : ℕ), decimalsOf a fuel d = some d' → pow10 d' % a.den = 0 := by
+  intro fuel
+  induction fuel with
+  | zero =>
+    intro d d' h
+    simp only [decimalsOf] at h
+    split at h
+    · rename_i hm; injection h with h; subst h; exact hm
+    · simp at h
+  | succ f ih =>
+    intro d d' h
+    simp only [decimalsOf] at h
+    split at h
+    · rename_i hm; injection h with h; subst h; exact hm
+    · exact ih _ _ h
+
+/-- a non-negative rational whose denominator divides `10^d`, times `10^d`, is the natural number its
+    numerator says -/
+theorem scaled_num (a : ℚ) (ha : 0 ≤ a) (d : ℕ) (hd : pow10 d % a.den = 0) :
+    (((a * (pow10 d : ℚ)).num.toNat : ℕ) : ℚ) = a * (pow10 d : ℚ) := by
+  obtain ⟨m, hm⟩ := Nat.dvd_of_mod_eq_zero hd
+  have hnum : 0 ≤ a.num := Rat.num_nonneg.mpr ha
+  have hN : ((a.num.toNat : ℕ) : ℤ) = a.num := Int.toNat_of_nonneg hnum
+  have h2 : ((a.num.toNat : ℕ) : ℚ) = (a.num : ℚ) := by
+    have : ((a.num.toNat : ℕ) : ℚ) = (((a.num.toNat : ℕ) : ℤ) : ℚ) := by push_cast; rfl
+    rw [this, hN]
+  have hval : a * (pow10 d : ℚ) = ((a.num.toNat * m : ℕ) : ℚ) := by
+    rw [hm]
+    push_cast
+    rw [h2, ← mul_assoc, Rat.mul_den_eq_num]
+  rw [hval]
+  have : ((a.num.toNat * m : ℕ) : ℚ).num = ((a.num.toNat * m : ℕ) : ℤ) := Rat.num_natCast _
+  rw [this, Int.toNat_natCast]
+
+theorem encRepr_helper (a : ℚ) (ha : 0 ≤ a) (neg : Bool) (d : ℕ) (hd : decimalsOf a 25 0 = some d) :
+    parseDecimal (printFixed (if d = 0 then 1 else d) neg
+        (if d = 0 then (a * (pow10 d : ℚ)).num.toNat * 10 else (a * (pow10 d : ℚ)).num.toNat))
+      = some (if neg then -a else a) := by
+  have hmod := decimalsOf_spec _ _ _ _ hd
+  have hsc := scaled_num a ha d hmod
+  by_cases hd0 : d = 0
+  · subst hd0
+    simp only [if_true]
+    rw [C07Codec.parseDecimal_printFixed 1 _ _ (le_refl _)]
+    have e : (((a * (pow10 0 : ℚ)).num.toNat * 10 : ℕ) : ℚ) / (pow10 1 : ℚ) = a := by
+      push_cast
+      rw [hsc]
+      simp [pow10]
+    rw [e]
+  · simp only [hd0, if_false]
+    have hk : 1 ≤ d := Nat.pos_of_ne_zero hd0
+    rw [C07Codec.parseDecimal_printFixed d _ _ hk]
+    have hp : (0 : ℚ) < (pow10 d : ℚ) := by unfold pow10; positivity
+    have e : (((a * (pow10 d : ℚ)).num.toNat : ℕ) : ℚ) / (pow10 d : ℚ) = a := by
+      rw [hsc]
+      field_simp
+    rw [e]
+
+/-- the text `repr` writes for a decimal (positional range, at most 25 places) is read back as that decimal -/
+theorem encRepr_parse (q : ℚ) (text : List Char) (h : encRepr q = some text) : parseDecimal text = some q := by
+  by_cases hq : q < 0
+  · unfold encRepr at h
+    simp only [hq, if_true] at h
+    split at h
+    · simp at h
+    · cases hdec : decimalsOf (-q) 25 0 with
+      | none => simp [hdec] at h
+      | some d =>
+        simp only [hdec, Option.some.injEq] at h
+        have := encRepr_helper (-q) (by linarith) true d hdec
+        rw [← h]
+        simpa using this
+  · unfold encRepr at h
+    simp only [hq, if_false] at h
+    split at h
+    · simp at h
+    · cases hdec : decimalsOf q 25 0 with
+      | none => simp [hdec] at h
+      | some d =>
+        simp only [hdec, Option.some.injEq] at h
+        have := encRepr_helper q (by linarith) false d hdec
+        rw [← h]
+        simpa using this
 
 end C07Float
